@@ -568,7 +568,9 @@ def owners(clause: str, kind: str) -> set:
     body = clause.split(':fail=', 1)[-1]
     for c in body.split(','):
         if c.startswith('complete-'):
-            own |= {'C20'} if kind == 'admission' else {'C09'}
+            own |= {'C20', 'C09'} if kind == 'admission' else {'C09'}
+        if c.startswith('admission-stream') or c.startswith('admission-seated'):
+            own |= {'C10'}
         if c.startswith('clients-complete') or c.startswith('client-stream') or c.startswith('replica-'):
             own |= {'C11'}
         if c.startswith('stream-'):
@@ -632,6 +634,8 @@ def run_into(chk: Check, pid: str, tier: str) -> None:
             replay_jobs(chk, 12 if quick else 400, 't')
         if not quick:
             jobs += systematic_stall_jobs(r, 'yp', False) + systematic_stall_jobs(r, 'yq', True)
+        # sessions in which further connection requests are refused on the way
+        jobs += admission_jobs(r, 16 if quick else 600, 'q')
         skeleton_conformance(chk, 4 if quick else 60)
     elif pid == 'C13':
         jobs = abort_jobs(r, 150 if quick else 3000, 'a')
@@ -641,6 +645,7 @@ def run_into(chk: Check, pid: str, tier: str) -> None:
         jobs = normal_jobs(r, 64 if quick else 3000, 'n')
         if pid == 'C10':
             jobs += abort_jobs(r, 24 if quick else 600, 'a')     # nothing refused is passed on
+            jobs += admission_jobs(r, 16 if quick else 400, 'q')  # refused requesters get nothing else
         if pid == 'C08':
             jobs += schedule_jobs(r, 24 if quick else 600, 'k')
     events = pmap(run_job, jobs, chunk=2)
